@@ -43,6 +43,8 @@ class Model:
         self.sigints = 0
         self.threshold, self.read_size, self.sigint_event = threshold, read_size, sigint_event
         self.delivered = 0
+        self.offset = 0  # absolute stream offset of fifo[0]
+        self.token_end = {}  # absolute offset of a keypress start -> absolute offset of its end (for arrivals made of whole keypresses)
         self.reads = []  # sizes of the reads the library made from the stream during the current request
         self.late_arrival = False
 
@@ -118,11 +120,16 @@ def run_case(case):
         sched_counters = [[0] for _ in range(ntrig.get("scheduled", 2))]
         sched_cbs = [inp.scheduled_event_trigger(sched_class(i, sched_counters[i])) for i in range(ntrig.get("scheduled", 2))]
 
-        def act_arrive(data, late=False):
+        def act_arrive(data, late=False, tokens=None):
             if setup == "pty" and len(model.fifo) - model.held + len(data) > 3500:
                 res.label("pty_arrival_skipped")  # 4 KiB pty buffer, single-threaded harness
                 return
             stream.feed(data)
+            if tokens:
+                pos = model.offset + len(model.fifo)
+                for tl in tokens:
+                    model.token_end[pos] = pos + tl
+                    pos += tl
             model.fifo += data
             if late:
                 model.late_arrival = True
@@ -157,7 +164,7 @@ def run_case(case):
         def perform(a, late=False):
             k = a["act"]
             if k == "arrive":
-                act_arrive(bytes.fromhex(a["data"]), late)
+                act_arrive(bytes.fromhex(a["data"]), late, a.get("tokens"))
             elif k == "fire":
                 for _ in range(a.get("count", 1)):
                     act_fire(a["kind"], a.get("i", 0))
@@ -172,9 +179,6 @@ def run_case(case):
                 model.held += n
 
         with Patched(sim, read_hook):
-            if setup == "pty":
-                inp.__enter__()
-                entered = True
             nreq = 0
 
             def request(timeout, during=(), inject=None, label_step=None):
@@ -296,7 +300,16 @@ def run_case(case):
                     if model.held != len(model.fifo) and not model.late_arrival:
                         res.viol("paste_left_available_bytes_unread", unread=len(model.fifo) - model.held, **ctx)
                         return "stop"
+                    # "holding its keypresses": an event that starts where an arrived keypress starts must be that keypress
+                    pos = model.offset
+                    for kb in out.events:
+                        end = model.token_end.get(pos)
+                        if end is not None and end <= model.offset + len(data) and pos + len(kb) != end:
+                            res.viol("paste_keypress_broken_up_or_merged", at=pos - model.offset, got=kb.hex(), expected_len=end - pos, **ctx)
+                            return "stop"
+                        pos += len(kb)
                     del model.fifo[: len(data)]
+                    model.offset += len(data)
                     model.held -= len(data)
                     return out
                 if isinstance(out, bytes):
@@ -310,24 +323,34 @@ def run_case(case):
                     if held_at_start > 0 and model.reads and held_at_start < k:
                         res.label("topped_up_across_read_boundary")
                     del model.fifo[:k]
+                    model.offset += k
                     model.held -= k
                     return out
                 res.viol("unknown_result", **ctx)
                 return "stop"
 
             stop = False
-            for si, step in enumerate(case["steps"]):
+            if setup == "pty":
+                # the object may be used before its context is entered (as with a pipe): a few requests first
+                for tmo in case.get("pre_enter_requests", []):
+                    res.label("request_before_entering_context")
+                    if request(tmo, label_step="pre_enter") == "stop":
+                        stop = True
+                        break
+                inp.__enter__()
+                entered = True
+            for si, step in enumerate(case["steps"] if not stop else []):
                 op = step["op"]
                 if op == "arrive":
                     data = bytes.fromhex(step["data"])
                     if len(data) > 1024:
                         res.label("multi_kb_burst")
-                    act_arrive(data)
+                    act_arrive(data, tokens=step.get("tokens"))
                 elif op == "unget":
                     # unget_bytes is "for reporting bytes from an in_stream read not initiated by this Input object":
                     # another reader takes the next n bytes from the stream and hands them over
                     if step.get("data"):
-                        act_arrive(bytes.fromhex(step["data"]))
+                        act_arrive(bytes.fromhex(step["data"]), tokens=step.get("tokens"))
                     import select as _rs
 
                     got = b""
@@ -397,7 +420,9 @@ def token_pool():
 
 
 def payload_strategy(max_tokens=12):
+    """-> strategy of (bytes, [token lengths]): concatenations of whole keypresses"""
     seqs = token_pool()
+    long_seqs = [t for t in seqs if len(t) >= 5]
     chars = st.one_of(
         st.characters(min_codepoint=0x20, max_codepoint=0x7E),
         st.characters(min_codepoint=0xA0, max_codepoint=0x7FF),
@@ -405,11 +430,11 @@ def payload_strategy(max_tokens=12):
         st.characters(min_codepoint=0x10000, max_codepoint=0x10FFFF),
     ).map(lambda c: c.encode("utf-8"))
     tok = st.one_of(st.sampled_from(seqs), chars, chars, st.sampled_from([b"\r", b"\t", b"\x01", b"\x7f", b"a", b" "]))
-    small = st.lists(tok, min_size=1, max_size=max_tokens).map(b"".join)
+    small = st.lists(tok, min_size=1, max_size=max_tokens).map(lambda ts: (b"".join(ts), [len(t) for t in ts]))
 
     def burst(args):
         pad, ch, n, tail = args
-        return b"a" * pad + ch * n + tail
+        return b"a" * pad + ch * n + tail[0], [1] * pad + [len(ch)] * n + tail[1]
 
     big = st.tuples(
         st.integers(0, 3),
@@ -417,7 +442,16 @@ def payload_strategy(max_tokens=12):
         st.sampled_from([300, 342, 400, 700, 1100, 1500]),
         small,
     ).map(burst)
-    return st.one_of(small, small, small, big)
+
+    def straddle(args):
+        m, j, key, tail = args
+        j = 1 + j % (len(key) - 1)  # the key's first j bytes end a READ_SIZE-sized read
+        pad = 1024 * m - j
+        return b"a" * pad + key + tail[0], [1] * pad + [len(key)] + tail[1]
+
+    strad = st.tuples(st.sampled_from([1, 1, 2, 3]), st.integers(0, 9),
+                      st.one_of(st.sampled_from(long_seqs), st.sampled_from(["∂".encode(), "\U0001f600".encode()])), small).map(straddle)
+    return st.one_of(small, small, small, big, strad)
 
 
 def pty_safe(data: bytes):
@@ -427,7 +461,7 @@ def pty_safe(data: bytes):
 def strategy():
     pay = payload_strategy()
     action = st.one_of(
-        st.fixed_dictionaries({"act": st.just("arrive"), "data": pay.map(bytes.hex), "at": st.sampled_from([0.0, 0.005, 0.2, 1.0])}),
+        st.tuples(pay, st.sampled_from([0.0, 0.005, 0.2, 1.0])).map(lambda t: {"act": "arrive", "data": t[0][0].hex(), "tokens": t[0][1], "at": t[1]}),
         st.fixed_dictionaries({"act": st.just("fire"), "kind": st.sampled_from(["plain", "ts", "ts"]), "i": st.integers(0, 1), "count": st.sampled_from([1, 1, 2, 3]), "at": st.sampled_from([0.0, 0.005, 0.2])}),
         st.fixed_dictionaries({"act": st.just("schedule"), "i": st.integers(0, 1), "dt": st.sampled_from([0.0, 0.005, 0.2]), "when_dt": st.sampled_from([-1.0, 0.0, 0.02, 0.1, 0.1, 5.0])}).map(
             lambda d: {"act": "schedule", "i": d["i"], "dt": d["when_dt"], "at": d["dt"]}
@@ -438,13 +472,15 @@ def strategy():
         st.none(), st.none(), st.none(),
         st.fixed_dictionaries({"line": st.integers(1, 60), "act": st.one_of(
             st.fixed_dictionaries({"act": st.just("fire"), "kind": st.sampled_from(["plain", "ts"]), "i": st.integers(0, 1), "count": st.sampled_from([1, 2])}),
-            st.fixed_dictionaries({"act": st.just("arrive"), "data": pay.map(bytes.hex)}),
+            pay.map(lambda t: {"act": "arrive", "data": t[0].hex(), "tokens": t[1]}),
             st.fixed_dictionaries({"act": st.just("sigint")}),
         )}),
     )
     step = st.one_of(
-        st.fixed_dictionaries({"op": st.just("arrive"), "data": pay.map(bytes.hex)}),
-        st.fixed_dictionaries({"op": st.just("unget"), "data": st.one_of(st.none(), payload_strategy(4).map(bytes.hex)), "n": st.sampled_from([1, 2, 3, 5, 8, 40, 2000])}),
+        pay.map(lambda t: {"op": "arrive", "data": t[0].hex(), "tokens": t[1]}),
+        pay.map(lambda t: {"op": "arrive", "data": t[0].hex(), "tokens": t[1]}),
+        st.tuples(st.one_of(st.none(), payload_strategy(4)), st.sampled_from([1, 2, 3, 5, 8, 40, 2000])).map(
+            lambda t: {"op": "unget", "data": t[0][0].hex() if t[0] else None, "tokens": t[0][1] if t[0] else None, "n": t[1]}),
         st.fixed_dictionaries({"op": st.just("fire"), "kind": st.sampled_from(["plain", "ts"]), "i": st.integers(0, 1), "count": st.sampled_from([1, 1, 2, 3])}),
         st.fixed_dictionaries({"op": st.just("schedule"), "i": st.integers(0, 1), "dt": st.sampled_from([-1.0, 0.0, 0.02, 0.1, 0.1, 0.3, 5.0])}),
         st.fixed_dictionaries({"op": st.just("sigint")}),
@@ -463,7 +499,9 @@ def strategy():
         {"op": "request", "timeout": t[1], "inject": None, "during": [{"act": "schedule", "i": t[5], "dt": t[3], "at": t[2]}]},
         {"op": "request", "timeout": 0.5, "inject": None, "during": []},
     ])
-    step = st.one_of(step, step, step, step, step, step, step, sched_race)
+    sigint_race = st.tuples(st.sampled_from([0.5, 0.5, None]), st.sampled_from([0.0, 0.005, 0.2])).map(
+        lambda t: [{"op": "request", "timeout": t[0], "inject": None, "during": [{"act": "sigint", "at": t[1]}]}])
+    step = st.one_of(step, step, step, step, step, step, step, sched_race, sigint_race)
 
     def fix(case):
         flat = []
@@ -479,6 +517,7 @@ def strategy():
                         # do not cut inside a character or sequence: fall back to ascii when truncated
                         if len(raw) < len(bytes.fromhex(holder["data"])):
                             raw = b"a" * len(raw)
+                            holder["tokens"] = [1] * len(raw)
                         budget -= len(raw)
                         holder["data"] = raw.hex()
                 if s["op"] == "request":
@@ -491,11 +530,37 @@ def strategy():
             "paste_threshold": st.sampled_from([None, None, 0, 1, 8, 8, 100, 2000]),
             "sigint_event": st.booleans(),
             "overshoot": st.sampled_from([0.0, 0.0005, 0.0005]),
+            "pre_enter_requests": st.lists(st.sampled_from([0, 0, 0.01]), max_size=2),
             "steps": st.lists(step, min_size=1, max_size=15),
         }
     ).map(fix)
 
 
+def straddle_cases(tier):
+    """enumeration: every table sequence of >= 3 bytes (and two multi-byte characters) placed so that its first j bytes end a
+    READ_SIZE-sized read (every j), as one burst; in paste mode (threshold 8) and outside it"""
+    seqs = [t for t in token_pool() if len(t) >= 3] + ["∂".encode(), "\U0001f600".encode()]
+    ms = (1, 2) if tier == "quick" else (1, 2, 3)
+    for key in seqs:
+        for j in range(1, len(key)):
+            for m in ms:
+                if tier == "quick" and m == 2 and (len(key) + j) % 3:
+                    continue
+                pad = 1024 * m - j
+                data = b"a" * pad + key + b"zz"
+                tokens = [1] * pad + [len(key), 1, 1]
+                for thr in (8, None) if (tier == "thorough" or j == len(key) - 1) else (8,):
+                    yield {"setup": "pipe", "paste_threshold": thr, "sigint_event": False, "overshoot": 0.0,
+                           "steps": [{"op": "arrive", "data": data.hex(), "tokens": tokens}, {"op": "request", "timeout": 0, "during": [], "inject": None}]}
+
+
 def campaign(col, tier, seed, shard, nshards):
+    for i, case in enumerate(straddle_cases(tier)):
+        if i % nshards != shard:
+            continue
+        unknown = col.record(case, run_case(case), distinct=True, sample=False)
+        if unknown:
+            col.add_violation(case, unknown)
+    col.exhaustive["every_table_sequence_straddling_a_read_boundary_at_every_offset"] = True
     n = 2400 if tier == "quick" else 40000
     hyp_campaign(col, strategy(), run_case, max(n // nshards, 100), seed * 100 + shard)
